@@ -476,8 +476,8 @@ Definition main_handler (c : cfg) (s : st) (o : op) : res :=
   end.
 
 (* the user drains the event stream: the handle's gate and pending validations follow the events.
-   A ValidateSubstream that replaces an unanswered one drops the old oneshot, which the protocol
-   sees as a Reject for the peer. NotificationStreamClosed removes the peer's NotificationSink from
+   A ValidateSubstream that replaces an unanswered one drops the old oneshot (second component of
+   the result); since the fix the protocol does not read a dropped sender as a verdict. NotificationStreamClosed removes the peer's NotificationSink from
    the handle: if that sink belongs to a Connection task that is still running (the Closed came
    from an older task), the task sees its notification channels closed and shuts down. *)
 Definition running (s : st) (k : N) : bool :=
@@ -506,20 +506,6 @@ Fixpoint drain (s : st) (evs : list uev) : st * list peer * list N :=
           else drain (set_hval s p true) t
       | UFail _ _ => drain s t
       | UNotif _ => drain s t
-      end
-  end.
-
-Fixpoint dropped_validations (s : st) (l : list peer) : res :=
-  match l with
-  | [] => ok s
-  | p :: t =>
-      match on_validation s p false with
-      | Some (s1, ev1, c1) =>
-          match dropped_validations s1 t with
-          | Some (s2, ev2, c2) => Some (s2, ev1 ++ ev2, c1 ++ c2)
-          | None => None
-          end
-      | None => None
       end
   end.
 
@@ -562,15 +548,11 @@ Definition step (c : cfg) (s : st) (o : op) : res :=
   match main_handler c s o with
   | None => None
   | Some (s1, ev, calls) =>
-      let '(s2, dropped, killed) := drain s1 ev in
+      let '(s2, _, killed) := drain s1 ev in
       let nf := map UNotif (filter (hopen s2) (notifs_of s o)) in
-      match dropped_validations s2 dropped with
-      | Some (s3, ev3, calls3) =>
-          let '(s4, ev4) := kill_tasks s3 killed in
-          let '(s5, _, _) := drain s4 (ev3 ++ ev4) in
-          Some (s5, ev ++ nf ++ ev3 ++ ev4, calls ++ calls3)
-      | None => None
-      end
+      let '(s4, ev4) := kill_tasks s2 killed in
+      let '(s5, _, _) := drain s4 ev4 in
+      Some (s5, ev ++ nf ++ ev4, calls)
   end.
 
 (* a run: outputs of every step; stops at the first stuck step *)
